@@ -730,7 +730,7 @@ class unyt_array(np.ndarray):
                     )
                 new_dtype = "f" + str(dsize)
                 large = LARGE_INPUT.get(dsize, 0)
-                if large and np.any(np.abs(values) > large):
+                if large and np.any(np.abs(values) >= large):
                     warnings.warn(
                         f"Overflow encountered while converting to units '{new_units}'",
                         RuntimeWarning,
@@ -910,7 +910,7 @@ class unyt_array(np.ndarray):
             dsize = max(2, self.dtype.itemsize)
             if self.dtype.kind in ("u", "i"):
                 large = LARGE_INPUT.get(dsize, 0)
-                if large and np.any(np.abs(self.d) > large):
+                if large and np.any(np.abs(self.d) >= large):
                     warnings.warn(
                         f"Overflow encountered while converting to units '{new_units}'",
                         RuntimeWarning,
